@@ -421,6 +421,60 @@ def rule_r4(ctx) -> List[R.Inst]:
     return insts
 
 
+def _dict_lookup(fn, src_loop, t) -> Optional[List[R.Inst]]:
+    """third form of the lookup: a dict from time to the row indices at that time, filled in one pass over the target's times
+    (`for ix, k in enumerate(times): D[k].append(ix)` / `D.setdefault(k, []).append(ix)`) and read as `D.get(t, [])` / `D[t]`.
+    Every row must be ACCUMULATED under its own time: `D[k] = [ix]` keeps only the last row of each time (a chord gets its sounds
+    on one note only, and which one depends on the row order)."""
+    rid = "C18.R6"
+    reads = []
+    for n in ast.walk(src_loop):
+        if isinstance(n, ast.Call) and isinstance(n.func, ast.Attribute) and n.func.attr == "get" and isinstance(n.func.value, ast.Name) and n.args and \
+                unparse(n.args[0]) == t:
+            reads.append((n.func.value.id, n))
+        elif isinstance(n, ast.Subscript) and isinstance(n.value, ast.Name) and isinstance(n.ctx, ast.Load) and unparse(n.slice) == t:
+            reads.append((n.value.id, n))
+    reads = [(d, n) for d, n in reads if any(isinstance(x, ast.Subscript) and isinstance(x.value, ast.Name) and x.value.id == d and
+                                             not any(y is x for y in ast.walk(src_loop)) for x in ast.walk(fn.node)) or
+             any(isinstance(x, ast.Call) and isinstance(x.func, ast.Attribute) and x.func.attr == "setdefault" and unparse(x.func.value) == d
+                 for x in ast.walk(fn.node))]
+    if not reads:
+        return None
+    d, rd = reads[0]
+    out: List[R.Inst] = []
+    fills = []        # (loop, key expr, kind, value expr, node)
+    for lp in ast.walk(fn.node):
+        if not isinstance(lp, ast.For) or lp is src_loop or any(x is lp for x in ast.walk(src_loop)):
+            continue
+        for st in ast.walk(lp):
+            if isinstance(st, ast.Expr) and isinstance(st.value, ast.Call) and call_name(st.value) == "append" and len(st.value.args) == 1:
+                recv = st.value.func.value
+                if isinstance(recv, ast.Subscript) and unparse(recv.value) == d:
+                    fills.append((lp, recv.slice, "append", st.value.args[0], st))
+                elif isinstance(recv, ast.Call) and call_name(recv) == "setdefault" and unparse(recv.func.value) == d and recv.args:
+                    fills.append((lp, recv.args[0], "append", st.value.args[0], st))
+            elif isinstance(st, ast.Assign) and len(st.targets) == 1 and isinstance(st.targets[0], ast.Subscript) and unparse(st.targets[0].value) == d:
+                acc = any(isinstance(x, ast.Name) and x.id == d for x in ast.walk(st.value))
+                fills.append((lp, st.targets[0].slice, "accumulate" if acc else "overwrite", st.value, st))
+    if not fills:
+        return [R.undec(rid, "slot-lookup", "", rd.lineno, f"how the dict '{d}' of target rows per time is filled was not found")]
+    over = [f for f in fills if f[2] == "overwrite"]
+    if over:
+        return [R.viol(rid, "slot-lookup", "", over[0][4].lineno,
+                       f"'{unparse(over[0][4])}' replaces the rows recorded for a time instead of adding to them: of several target notes at one "
+                       f"time only the last row remains a slot, so a chord receives the sounds on one note only — which one depends on the "
+                       f"row order", construct=f"{d}[time] overwritten: {unparse(over[0][4])[:80]}")]
+    lp, key, _k, val, node = fills[0]
+    # the pass runs over the target's times, the key is the row's time and the value its index
+    en = lp.iter
+    ok_ = isinstance(en, ast.Call) and call_name(en) == "enumerate" and len(en.args) == 1 and not en.keywords and "offset" in unparse(en.args[0]) and \
+        isinstance(lp.target, ast.Tuple) and len(lp.target.elts) == 2 and unparse(lp.target.elts[1]) == unparse(key) and \
+        unparse(lp.target.elts[0]) == unparse(val)
+    if ok_:
+        return [R.ok(rid, "slot-lookup", "", rd.lineno, idiom=f"{d}[time] accumulates the row indices of the target at that time; read with the source's time")]
+    return [R.undec(rid, "slot-lookup", "", node.lineno, f"the pass filling '{d}' is not `for ix, time in enumerate(<target times>)` storing ix under time")]
+
+
 def _slot_lookup(fn) -> List[R.Inst]:
     """the target notes that may receive the sounds of time t are the rows whose time EQUALS t: a mask `K == t`, or the run
     [searchsorted(K, t, "left"), searchsorted(K, t, "right")) of the sorted times — both ends searched with t itself"""
@@ -458,6 +512,8 @@ def _slot_lookup(fn) -> List[R.Inst]:
             out.append(R.ok(rid, "slot-lookup", "", ss[0].lineno, idiom=f"[searchsorted(times, {t}, left), searchsorted(times, {t}, right)): exactly the rows at {t}"))
         else:
             out.append(R.undec(rid, "slot-lookup", "", ss[0].lineno, f"search of the target rows at '{t}' not recognised: {[(k, s_) for k, s_, _ in keys]}"))
+    elif _dict_lookup(fn, src_loop, t) is not None:
+        out.extend(_dict_lookup(fn, src_loop, t))
     elif masks:
         bad = [m for m in masks if not isinstance(m.ops[0], ast.Eq)]
         if bad:
@@ -753,7 +809,40 @@ def rule_r7(ctx) -> List[R.Inst]:
                             f"the kinds of one slot are decided against different indices {sorted(idx)}: the n-th note of a volume group must get "
                             f"the n-th clap, finish and whistle of that group", construct=f"indices {sorted(idx)}"))
     elif len(idx) == 1:
-        insts.append(R.ok(rid, "sound:index", file, fn.node.lineno, idiom=f"all kinds are tested against the one index '{next(iter(idx))}'"))
+        # ... and that index counts the sounds of THIS volume group from 0: the variable of a `for n in range(..)` around the test.
+        # A counter that lives across the groups of one time (the slot cursor) is not it: from the second volume on it is already
+        # past the counts, and the sounds of that volume are dropped although notes are free
+        ix = next(iter(idx))
+        n0 = next(rn for v in recomb.values() for _, rn, x in v if x is not None)
+        parents = {}
+        for a_ in ast.walk(fn.node):
+            for ch in ast.iter_child_nodes(a_):
+                parents[id(ch)] = a_
+        anc, cur = [], n0
+        while id(cur) in parents:
+            cur = parents[id(cur)]
+            if isinstance(cur, ast.For):
+                anc.append(cur)
+        own = [l_ for l_ in anc if isinstance(l_.target, ast.Name) and l_.target.id == ix and isinstance(l_.iter, ast.Call) and call_name(l_.iter) == "range"]
+        bumped = [x for l_ in anc[:1] for x in ast.walk(l_) if isinstance(x, ast.AugAssign) and unparse(x.target) == ix]
+        if own and not bumped:
+            insts.append(R.ok(rid, "sound:index", file, fn.node.lineno, idiom=f"all kinds are tested against the one index '{ix}', counted from 0 per volume group"))
+        elif not own and isinstance(ast.parse(ix, mode="eval").body, ast.Name) and anc:
+            inits = [x for x in ast.walk(fn.node) if isinstance(x, ast.Assign) and len(x.targets) == 1 and unparse(x.targets[0]) == ix]
+            inner = anc[0]
+            # the loop over the volume groups: the innermost enclosing loop that is not a range loop
+            grp = next((l_ for l_ in anc if not (isinstance(l_.iter, ast.Call) and call_name(l_.iter) == "range")), None)
+            outside = grp is not None and inits and not any(any(y is i_ for y in ast.walk(grp)) for i_ in inits)
+            if outside:
+                insts.append(R.viol(rid, "sound:index", file, n0.lineno,
+                                    f"the kinds of a slot are decided against '{ix}', which is set before the loop over the volume groups and "
+                                    f"keeps counting across them: the n-th note of a volume group must get the n-th clap / finish / whistle of "
+                                    f"THAT group, so with two volumes at one time the sounds of the second are dropped",
+                                    construct=f"index '{ix}' initialised outside the volume-group loop"))
+            else:
+                insts.append(R.undec(rid, "sound:index", file, n0.lineno, f"what the index '{ix}' counts was not established"))
+        else:
+            insts.append(R.undec(rid, "sound:index", file, n0.lineno, f"what the index '{ix}' counts was not established"))
     return insts
 
 
